@@ -594,7 +594,7 @@ func historyJobs(tier string, deep bool) []job {
 		return []job{J(".", "VX_Session_History", 5)}
 	}
 	var js []job
-	for first := 0; first <= 8; first++ {
+	for _, first := range []int{0, 1, 2, 3, 4, 7, 8} { // (a reply or a handler release cannot be the first event)
 		js = append(js, J(".", "VX_Session_History", 6, first))
 	}
 	return js
